@@ -8,6 +8,7 @@ mod core;
 mod enc;
 mod guard;
 mod props;
+mod s3sim;
 mod t31;
 
 use crate::core::*;
@@ -21,6 +22,8 @@ type ReplayFn = fn(&'static Ctx, &Value);
 
 fn table() -> Vec<(&'static str, RunFn, ReplayFn)> {
     vec![
+        ("C15", props::c15::run as RunFn, props::c15::replay as ReplayFn),
+        ("C19", props::c19::run as RunFn, props::c19::replay as ReplayFn),
         ("C14", props::c14::run as RunFn, props::c14::replay as ReplayFn),
         ("C06", props::c06::run as RunFn, props::c06::replay as ReplayFn),
         ("C04", props::c04::run as RunFn, props::c04::replay as ReplayFn),
